@@ -8,6 +8,7 @@ package ecmascript_test
 import (
 	"context"
 	"fmt"
+	"math"
 	"strings"
 	"testing"
 
@@ -83,6 +84,12 @@ func runC18(c *sim.Ctx, t *testing.T) {
 			start.Bs["?dev!"] = "d1"
 			start.Bs["?!"] = 1.0
 		}
+		nanB := false
+		if c.Chance(1, 8, "nanbinding") {
+			// ... or that holds a value JSON cannot carry (an average over nothing)
+			start.Bs["avg"] = math.NaN()
+			nanB = true
+		}
 		if c.Chance(1, 6, "wasaterror") {
 			// ... or one that has been to the error node before and still carries its diagnostics
 			start.Bs["lastBindings"] = map[string]interface{}{"n": 1.0}
@@ -94,6 +101,10 @@ func runC18(c *sim.Ctx, t *testing.T) {
 			delete(start.Bs, "p!")
 		} else {
 			start.Bs["k!"] = genValue(c, 0)
+			if nanB {
+				// with a structured permanent value a script could write into
+				start.Bs["k!"] = map[string]interface{}{"q": 1.0, "hosts": []interface{}{"a", "b"}}
+			}
 			if c.Bool("second") {
 				start.Bs["p!"] = genConst(c)
 			}
